@@ -108,6 +108,17 @@ def kwarg(c: ast.Call, name: str) -> ast.AST:
     raise SelectorMiss(f"keyword {name} not found")
 
 
+class _StripRaiseArgs(ast.NodeTransformer):
+    """`raise ValueError(f"... {names} ...")` -> `raise ValueError()` (messages are not modelled
+    and may mention names that are not parameters of the kernel)."""
+
+    def visit_Raise(self, node):
+        if isinstance(node.exc, ast.Call) and ast.unparse(node.exc.func) in py2lean.EXC_MAP \
+                and ast.unparse(node.exc.func) != "SubvolumeOutOfBoundError":
+            node.exc = ast.Call(node.exc.func, [], [])
+        return node
+
+
 class _Subst(ast.NodeTransformer):
     def __init__(self, subst):
         self.subst = subst
@@ -164,7 +175,8 @@ class K:
                     name="kernel", args=ast.arguments(
                         posonlyargs=[], args=[ast.arg(p) for p, _ in self.params], kwonlyargs=[],
                         kw_defaults=[], defaults=[]),
-                    body=[_Subst(self.subst).visit(copy.deepcopy(s)) for s in stmts] + [ast.Return(
+                    body=[_StripRaiseArgs().visit(_Subst(self.subst).visit(copy.deepcopy(s)))
+                          for s in stmts] + [ast.Return(
                         ast.Tuple([ast.Name(r, ast.Load()) for r in returns], ast.Load())
                         if len(returns) != 1 else ast.Name(returns[0], ast.Load()))],
                     decorator_list=[], lineno=1, col_offset=0)
